@@ -17,6 +17,7 @@ package validate
 import (
 	"context"
 	"fmt"
+	"math"
 	"math/big"
 	"reflect"
 	"strconv"
@@ -383,12 +384,19 @@ func MaximumNativeType(path, in string, val interface{}, maximum float64, exclus
 	kind := reflect.ValueOf(val).Type().Kind()
 	switch kind { //nolint:exhaustive
 	case reflect.Int, reflect.Int8, reflect.Int16, reflect.Int32, reflect.Int64:
+		if !isIntegralFloat64(maximum) {
+			// a bound with a fractional part cannot be converted to an integer without changing the verdict
+			return Maximum(path, in, valueHelp.asFloat64(val), maximum, exclusive)
+		}
 		value := valueHelp.asInt64(val)
 		return MaximumInt(path, in, value, int64(maximum), exclusive)
 	case reflect.Uint, reflect.Uint8, reflect.Uint16, reflect.Uint32, reflect.Uint64:
 		value := valueHelp.asUint64(val)
 		if maximum < 0 {
 			return errors.ExceedsMaximum(path, in, maximum, exclusive, val)
+		}
+		if !isIntegralFloat64(maximum) {
+			return Maximum(path, in, valueHelp.asFloat64(val), maximum, exclusive)
 		}
 		return MaximumUint(path, in, value, uint64(maximum), exclusive)
 	case reflect.Float32, reflect.Float64:
@@ -413,12 +421,19 @@ func MinimumNativeType(path, in string, val interface{}, minimum float64, exclus
 	kind := reflect.ValueOf(val).Type().Kind()
 	switch kind { //nolint:exhaustive
 	case reflect.Int, reflect.Int8, reflect.Int16, reflect.Int32, reflect.Int64:
+		if !isIntegralFloat64(minimum) {
+			// a bound with a fractional part cannot be converted to an integer without changing the verdict
+			return Minimum(path, in, valueHelp.asFloat64(val), minimum, exclusive)
+		}
 		value := valueHelp.asInt64(val)
 		return MinimumInt(path, in, value, int64(minimum), exclusive)
 	case reflect.Uint, reflect.Uint8, reflect.Uint16, reflect.Uint32, reflect.Uint64:
 		value := valueHelp.asUint64(val)
 		if minimum < 0 {
 			return nil
+		}
+		if !isIntegralFloat64(minimum) {
+			return Minimum(path, in, valueHelp.asFloat64(val), minimum, exclusive)
 		}
 		return MinimumUint(path, in, value, uint64(minimum), exclusive)
 	case reflect.Float32, reflect.Float64:
@@ -443,9 +458,16 @@ func MultipleOfNativeType(path, in string, val interface{}, multipleOf float64) 
 	kind := reflect.ValueOf(val).Type().Kind()
 	switch kind { //nolint:exhaustive
 	case reflect.Int, reflect.Int8, reflect.Int16, reflect.Int32, reflect.Int64:
+		if !isIntegralFloat64(multipleOf) {
+			// a factor with a fractional part (e.g. 0.5) must not be truncated (to 0)
+			return MultipleOf(path, in, valueHelp.asFloat64(val), multipleOf)
+		}
 		value := valueHelp.asInt64(val)
 		return MultipleOfInt(path, in, value, int64(multipleOf))
 	case reflect.Uint, reflect.Uint8, reflect.Uint16, reflect.Uint32, reflect.Uint64:
+		if !isIntegralFloat64(multipleOf) || multipleOf < 0 {
+			return MultipleOf(path, in, valueHelp.asFloat64(val), multipleOf)
+		}
 		value := valueHelp.asUint64(val)
 		return MultipleOfUint(path, in, value, uint64(multipleOf))
 	case reflect.Float32, reflect.Float64:
@@ -454,6 +476,11 @@ func MultipleOfNativeType(path, in string, val interface{}, multipleOf float64) 
 		value := valueHelp.asFloat64(val)
 		return MultipleOf(path, in, value, multipleOf)
 	}
+}
+
+// isIntegralFloat64 tells whether a float64 constraint holds an integral value that converts to int64 exactly.
+func isIntegralFloat64(f float64) bool {
+	return f == math.Trunc(f) && f >= -(1<<63) && f < (1<<63)
 }
 
 // IsValueValidAgainstRange checks that a numeric value is compatible with
